@@ -5,7 +5,7 @@
    any list of integers (code_at reads them as bytes).  evm.depth is 1 inside the outermost frame, so
    "depth counter <= CallCreateDepth + 1" is the Yellow Paper's "at most 1024 nested calls". *)
 From Coq Require Import ZArith List Bool String Lia.
-From V.C11 Require Import Model Gen Proofs Arith Interp Bounds Pricing Precompile.
+From V.C11 Require Import Model Gen Proofs Arith Interp Bounds Pricing Precompile Analysis.
 Import ListNotations.
 Local Open Scope Z_scope.
 
@@ -114,6 +114,19 @@ Theorem C11_returndatacopy_wrap64_refuted :
   retdata_guard_wrap64 0 (2 ^ 64 - 1) 1 = true /\ retdata_guard 0 (2 ^ 64 - 1) 1 = false.
 Proof. exact retdata_guard_wrap64_refuted. Qed.
 Print Assumptions C11_returndatacopy_wrap64_refuted.
+
+(* the JUMPDEST analysis (analysis.go codeBitmap) never writes outside its bit vector of len(code)/8+5 bytes,
+   for every code string — including code that ends in a PUSHn with its data missing; the shorter allocation
+   (len+39)/8 would be left by the same scan *)
+Theorem C11_jumpdest_analysis_in_bounds : forall fuel code pc, 0 <= pc ->
+  Forall (fun i => 0 <= i < bitmap_len (zlen code)) (walk fuel code pc).
+Proof. exact walk_in_bounds. Qed.
+Print Assumptions C11_jumpdest_analysis_in_bounds.
+Theorem C11_jumpdest_analysis_short_alloc_refuted :
+  let code := [0; 0; 0; 0; 0; 0; 0; 127] in
+  exists i, In i (walk 10 code 0) /\ bitmap_len_short (zlen code) <= i.
+Proof. exact walk_short_refuted. Qed.
+Print Assumptions C11_jumpdest_analysis_short_alloc_refuted.
 
 Section Machine.
   Context {W : Type}.
